@@ -171,6 +171,9 @@ impl HardwareBreakpoint {
         let mut state = HardwareDebugState::current(tracee_ctl.proc_pid())?;
         let register = self.register.expect("should exist");
         state.dr7.set_dr(register, false, false);
+        // leave no stale length in the freed slot: the kernel validates a new address written
+        // into this slot against the old length (an 8-byte slot rejects a 4-byte aligned address)
+        state.dr7.clear_bp(register);
         tracee_ctl.tracee_iter().for_each(|t| {
             if let Err(e) = state.sync(t.pid) {
                 error!("remove hardware breakpoint for thread {}: {e}", t.pid)
